@@ -255,6 +255,10 @@ func (d *DTable) collectAtoms(body *ast.BlockStmt) {
 				d.orderAtom(a, b)
 				return
 			}
+			if in := d.inlinePredicate(x); in != nil {
+				walkBool(in)
+				return
+			}
 		}
 		d.boolAtom(e)
 	}
@@ -281,6 +285,138 @@ func (d *DTable) collectAtoms(body *ast.BlockStmt) {
 		}
 		return true
 	})
+}
+
+// theProgram gives the table builder access to declarations for inlining small predicates.
+var theProgram *Program
+
+// inlinePredicate: if call invokes a function/method of the repository whose body is a single
+// `return <expr>`, returns that expression with receiver and parameters replaced by the call's
+// operands; otherwise nil. Lets a condition that was moved into a predicate helper be analysed as
+// if it were still written in place.
+func (d *DTable) inlinePredicate(call *ast.CallExpr) ast.Expr {
+	if theProgram == nil {
+		return nil
+	}
+	fn := calleeOf(d.info, call)
+	if fn == nil {
+		return nil
+	}
+	fd := theProgram.Decl(fn)
+	if fd == nil || fd.Body == nil || len(fd.Body.List) == 0 || len(fd.Body.List) > 6 {
+		return nil
+	}
+	// body: zero or more `if c { return e }` followed by `return e` -> one boolean expression
+	n := len(fd.Body.List)
+	last, ok := fd.Body.List[n-1].(*ast.ReturnStmt)
+	if !ok || len(last.Results) != 1 {
+		return nil
+	}
+	var folded ast.Expr = last.Results[0]
+	for i := n - 2; i >= 0; i-- {
+		ifs, ok := fd.Body.List[i].(*ast.IfStmt)
+		if !ok || ifs.Init != nil || ifs.Else != nil || len(ifs.Body.List) != 1 {
+			return nil
+		}
+		r, ok := ifs.Body.List[0].(*ast.ReturnStmt)
+		if !ok || len(r.Results) != 1 {
+			return nil
+		}
+		// (c && e) || (!c && rest)
+		folded = &ast.BinaryExpr{
+			X:  &ast.BinaryExpr{X: &ast.ParenExpr{X: ifs.Cond}, Op: token.LAND, Y: &ast.ParenExpr{X: r.Results[0]}},
+			Op: token.LOR,
+			Y:  &ast.BinaryExpr{X: &ast.UnaryExpr{Op: token.NOT, X: &ast.ParenExpr{X: ifs.Cond}}, Op: token.LAND, Y: &ast.ParenExpr{X: folded}},
+		}
+	}
+	ret := &ast.ReturnStmt{Results: []ast.Expr{folded}}
+	finfo := theProgram.InfoFor(fd)
+	subst := map[types.Object]ast.Expr{}
+	if fd.Recv != nil && len(fd.Recv.List) > 0 && len(fd.Recv.List[0].Names) > 0 {
+		sel, ok := ast.Unparen(call.Fun).(*ast.SelectorExpr)
+		if !ok {
+			return nil
+		}
+		if obj := finfo.Defs[fd.Recv.List[0].Names[0]]; obj != nil {
+			subst[obj] = sel.X
+		}
+	}
+	i := 0
+	for _, f := range fd.Type.Params.List {
+		for _, n := range f.Names {
+			if i < len(call.Args) {
+				if obj := finfo.Defs[n]; obj != nil {
+					subst[obj] = call.Args[i]
+				}
+			}
+			i++
+		}
+	}
+	return substExpr(finfo, ret.Results[0], subst)
+}
+
+// substExpr rebuilds e with identifiers bound in subst replaced; nodes without replaced
+// descendants are shared with the original tree (so type information keeps working for them).
+func substExpr(info *types.Info, e ast.Expr, subst map[types.Object]ast.Expr) ast.Expr {
+	switch x := e.(type) {
+	case *ast.Ident:
+		if obj := info.Uses[x]; obj != nil {
+			if r, ok := subst[obj]; ok {
+				return r
+			}
+		}
+		return x
+	case *ast.ParenExpr:
+		return &ast.ParenExpr{X: substExpr(info, x.X, subst)}
+	case *ast.SelectorExpr:
+		nx := substExpr(info, x.X, subst)
+		if nx == x.X {
+			return x
+		}
+		return &ast.SelectorExpr{X: nx, Sel: x.Sel}
+	case *ast.StarExpr:
+		nx := substExpr(info, x.X, subst)
+		if nx == x.X {
+			return x
+		}
+		return &ast.StarExpr{X: nx}
+	case *ast.UnaryExpr:
+		nx := substExpr(info, x.X, subst)
+		if nx == x.X {
+			return x
+		}
+		return &ast.UnaryExpr{Op: x.Op, X: nx, OpPos: x.OpPos}
+	case *ast.BinaryExpr:
+		a, b := substExpr(info, x.X, subst), substExpr(info, x.Y, subst)
+		if a == x.X && b == x.Y {
+			return x
+		}
+		return &ast.BinaryExpr{X: a, Op: x.Op, Y: b, OpPos: x.OpPos}
+	case *ast.IndexExpr:
+		a, b := substExpr(info, x.X, subst), substExpr(info, x.Index, subst)
+		if a == x.X && b == x.Index {
+			return x
+		}
+		return &ast.IndexExpr{X: a, Index: b}
+	case *ast.CallExpr:
+		changed := false
+		nf := substExpr(info, x.Fun, subst)
+		if nf != x.Fun {
+			changed = true
+		}
+		args := make([]ast.Expr, len(x.Args))
+		for i, a := range x.Args {
+			args[i] = substExpr(info, a, subst)
+			if args[i] != a {
+				changed = true
+			}
+		}
+		if !changed {
+			return x
+		}
+		return &ast.CallExpr{Fun: nf, Args: args, Lparen: x.Lparen, Rparen: x.Rparen}
+	}
+	return e
 }
 
 func isNilIdent(e ast.Expr) bool {
@@ -375,6 +511,11 @@ func (d *DTable) evalBool(e ast.Expr, as map[string]int) (bool, bool) {
 			}
 		}
 	case *ast.CallExpr:
+		if in := d.inlinePredicate(x); in != nil {
+			if _, _, _, isT := isTimeCmp(d.info, x); !isT {
+				return d.evalBool(in, as)
+			}
+		}
 		if name, a, b, ok := isTimeCmp(d.info, x); ok {
 			at, flip := d.orderAtom(a, b)
 			s, ok := as[at.Key]
